@@ -149,6 +149,17 @@ func drawSimpleSet(t *rapid.T, scale float64, reversed bool) Paths {
 			out[i] = c2.ReversePath(out[i])
 		}
 	}
+	// spellings every polygon entry point accepts: an explicit closing vertex, a repeated vertex
+	for i := range out {
+		switch rapid.IntRange(0, 7).Draw(t, "spelling") {
+		case 0, 1:
+			out[i] = append(append(Path{}, out[i]...), out[i][0])
+		case 2:
+			j := rapid.IntRange(0, len(out[i])-1).Draw(t, "dupAt")
+			q := append(Path{}, out[i][:j+1]...)
+			out[i] = append(append(q, out[i][j]), out[i][j+1:]...)
+		}
+	}
 	// the order of the paths within a set is arbitrary (holes may come before their outers)
 	if rapid.Bool().Draw(t, "shuffle") {
 		for i := len(out) - 1; i > 0; i-- {
@@ -254,8 +265,8 @@ func judgeC05(c *C05Case, cx *Ctx) *Violation {
 			return violf("|delta|=%v < 0.5 must return the input paths: got %d paths for %d", ad, len(sol), len(in))
 		}
 		for i := range in {
-			if !kit.PathsEqual(Paths{sol[i]}, Paths{in[i]}) { // generated paths have no repeated points
-				return violf("|delta|=%v < 0.5 must return the input paths unchanged: path %d is %v, input %v", ad, i, sol[i], in[i])
+			if !kit.PathsEqual(Paths{sol[i]}, Paths{withoutRepeats(in[i])}) {
+				return violf("|delta|=%v < 0.5 must return the input paths apart from repeated points: path %d is %v, input %v", ad, i, sol[i], in[i])
 			}
 		}
 		cx.St.Eval(c, false, append(label, "delta:sub-half")...)
@@ -466,3 +477,18 @@ func init() {
 }
 
 func TestC05(t *testing.T) { runProp(t, "C05") }
+
+// withoutRepeats removes cyclically consecutive repeated points of a closed path (what the
+// statement calls "apart from repeated points"): later copies go, the first one stays.
+func withoutRepeats(p Path) Path {
+	var q Path
+	for _, v := range p {
+		if len(q) == 0 || q[len(q)-1] != v {
+			q = append(q, v)
+		}
+	}
+	for len(q) > 1 && q[len(q)-1] == q[0] {
+		q = q[:len(q)-1]
+	}
+	return q
+}
